@@ -52,6 +52,18 @@ pub fn replay(file: &str) -> i32 {
         }
     };
     let prop = v["property"].as_str().unwrap_or("").to_string();
+    // witnesses that only exist inside a whole pass over the explored state space (one generator
+    // asked about every state, twin passes, generator draws, rebuilt draws): the replay is the
+    // check itself, re-run in the tier that found the witness
+    let kind = v["extra"]["kind"].as_str().unwrap_or("");
+    if matches!(kind, "c02-pass" | "c02-twins" | "c06-pass" | "c06-twins" | "c11-draw" | "other-draw" | "c05-const" | "c14-path" | "c14-binary" | "c10-cli" | "hang" | "c09-free" | "c09-free-hang") {
+        let tier = v["tier"].as_str().unwrap_or("quick").to_string();
+        println!("REPLAY: this witness ({}) is reproduced by re-running the whole check `{} {}`", kind, prop, tier);
+        let a = Args { prop: prop.clone(), tier, seed: 0, threads: std::thread::available_parallelism().map(|n| n.get()).unwrap_or(8) };
+        let rc = run(&a);
+        println!("{} property={}", if rc == 1 { "REPRODUCED" } else { "NOT-REPRODUCED" }, prop);
+        return rc;
+    }
     match prop.as_str() {
         "C01" | "C02" | "C03" | "C04" | "C05" | "C06" | "C12" | "C13" | "C19" => walkprops::replay(&v),
         "C07" => c07::replay(&v),
